@@ -18,4 +18,3 @@ INVARIANT LawTrans
 INVARIANT LawDecoding
 INVARIANT LawSegmentwise
 INVARIANT LawRuleDefault
-POSTCONDITION Visited
